@@ -59,5 +59,16 @@ func ToBoolE
   ensures a-text-is-what-parsebool-says: hasType(value, string) && result1 == nil ==> result0 == strconv.ParseBool(strval(value))
   ensures null-is-no-boolean: value == nil ==> result1 != nil && !result0
   ensures an-error-means-false: result1 != nil ==> !result0
+
+// the text of a number: an integer of any width is written exactly, digit by digit (never through a float), a float in
+// plain decimal notation at its own width
+func convertNumericToString
+  props C06 C03
+  option pure
+  ensures small-integers-are-written-exactly: hasType(input, int) || hasType(input, int8) || hasType(input, int16) || hasType(input, int32) || hasType(input, uint) || hasType(input, uint8) || hasType(input, uint16) || hasType(input, uint32) ==> result1 && result0 == strconv.Itoa(intval(input))
+  ensures sixty-four-bit-integers-are-written-exactly: hasType(input, int64) ==> result1 && result0 == strconv.FormatInt(intval(input), 10)
+  ensures unsigned-sixty-four-bit-integers-are-written-exactly: hasType(input, uint64) ==> result1 && result0 == strconv.FormatUint(intval(input), 10)
+  ensures floats-in-plain-notation-at-their-own-width: (hasType(input, float64) ==> result1 && result0 == strconv.FormatFloat(realval(input), 102, -1, 64)) && (hasType(input, float32) ==> result1 && result0 == strconv.FormatFloat(realval(input), 102, -1, 32))
+  ensures nothing-else-is-a-number: !castIsInt(input) && !hasType(input, float64) && !hasType(input, float32) ==> !result1
 @*/
 
